@@ -89,13 +89,13 @@ def synchronize_terminal_measurements(
     """
     if context is None:
         context = transformer_api.TransformerContext()
-    found = set(find_terminal_measurements(circuit))
+    found = {(i, op.qubits) for i, op in find_terminal_measurements(circuit)}
     # Keep the circuit's own order, so that measurements sharing a key stay in order.
     terminal_measurements = [
         (i, op)
         for i, moment in enumerate(circuit)
         for op in moment
-        if (i, op) in found and set(op.tags).isdisjoint(context.tags_to_ignore)
+        if (i, op.qubits) in found and set(op.tags).isdisjoint(context.tags_to_ignore)
     ]
     ret = circuit.unfreeze(copy=True)
     if not terminal_measurements:
